@@ -498,11 +498,54 @@ def frameRate (s : SpsSyn) : Option (Nat × Nat) :=
   if s.vui_parameters_present_flag ∧ s.vui.vui_timing_info_present_flag ∧ s.vui.vui_num_units_in_tick ≠ 0
   then some (s.vui.vui_time_scale, s.vui.vui_num_units_in_tick) else none
 
-/-- "fixed rate": H.265 has no single bit for it; the code's definition — timing information present with a
-    non-zero tick and time scale — is adopted (DESIGN §5 C15, an interpretation) -/
+/-- what the CODE takes for "fixed rate" (hevc/sps.go IsFixedFrameRate, `FrameRate() > 0`, marked TODO there): timing
+    information present with a non-zero tick and time scale.  This is NOT the standard's definition, see
+    `fixedFrameRateStd`; the two agree on the trees of `RateAgree`. -/
 def fixedFrameRate (s : SpsSyn) : Bool :=
   s.vui_parameters_present_flag && s.vui.vui_timing_info_present_flag &&
     decide (s.vui.vui_num_units_in_tick ≠ 0) && decide (s.vui.vui_time_scale ≠ 0)
+
+/-- E.2.2 / E.3.2: the sub-layer HRD information for HighestTid = sps_max_sub_layers_minus1 (the last entry), when the
+    VUI carries timing information and hrd_parameters() -/
+def topHrdSubLayer (s : SpsSyn) : Option HrdSubLayerSyn :=
+  if s.vui_parameters_present_flag && s.vui.vui_timing_info_present_flag && s.vui.vui_hrd_parameters_present_flag
+  then s.vui.hrd.sub_layers.getLast? else none
+
+/-- E.3.2: fixed_pic_rate_within_cvs_flag[HighestTid] (inferred 1 when fixed_pic_rate_general_flag is 1): "the temporal
+    distance between the HRD output times of consecutive pictures in output order is constrained" -/
+def fixedPicRate (s : SpsSyn) : Bool :=
+  match topHrdSubLayer s with
+  | some l => l.fixed_pic_rate_general_flag || l.fixed_pic_rate_within_cvs_flag
+  | none => false
+
+/-- The standard's "fixed rate" of an H.265 SPS: the picture rate is constrained to be constant exactly when
+    fixed_pic_rate_within_cvs_flag[HighestTid] = 1 in the VUI's hrd_parameters() (and the clock is defined). -/
+def fixedFrameRateStd (s : SpsSyn) : Bool := fixedFrameRate s && fixedPicRate s
+
+/-- The standard's picture rate: with a fixed picture rate the distance between consecutive pictures is
+    (elemental_duration_in_tc_minus1[HighestTid] + 1) clock ticks (E.3.2), so the rate is
+    vui_time_scale / (vui_num_units_in_tick · (elemental_duration_in_tc_minus1 + 1)); without the constraint the clock
+    tick rate `frameRate` is all the SPS tells. -/
+def frameRateStd (s : SpsSyn) : Option (Nat × Nat) :=
+  match topHrdSubLayer s with
+  | some l =>
+    if (l.fixed_pic_rate_general_flag || l.fixed_pic_rate_within_cvs_flag) then
+      (frameRate s).map (fun (n, d) => (n, d * (l.elemental_duration_in_tc_minus1 + 1)))
+    else frameRate s
+  | none => frameRate s
+
+/-- the trees on which the code's convention and the standard agree: timing information (non-zero tick and scale) comes
+    with a fixed picture rate, and a fixed picture rate is one clock tick per picture -/
+def RateAgree (s : SpsSyn) : Prop :=
+  (fixedFrameRate s = true → fixedPicRate s = true) ∧
+  (∀ l, topHrdSubLayer s = some l → (l.fixed_pic_rate_general_flag || l.fixed_pic_rate_within_cvs_flag) = true →
+      l.elemental_duration_in_tc_minus1 = 0)
+
+/-- class of a tree for the harness: which known difference between the code's convention and the standard applies -/
+def rateClass (s : SpsSyn) : String :=
+  if fixedFrameRate s && !fixedPicRate s then "hevc-fixed-rate-assumed-from-timing-info"
+  else if frameRateStd s != frameRate s then "hevc-frame-rate-ignores-elemental-duration"
+  else "agree"
 
 /-! ### 7.4.8: the short-term reference picture sets as delta arrays -/
 
